@@ -75,10 +75,10 @@ Proof.
     destruct (Z.leb_spec (size dims) (e - 1)); cbn [fst cells ptr]; [split; [exact HL|rewrite P; exact HP]|].
     split; [exact HL|lia].
   - destruct (ptr s) as [e|] eqn:P; cbn [fst]; [|split; [exact HL|rewrite P; exact I]].
-    destruct ((e + k <? 0) || (av_size dims <=? e + k)); cbn [fst]; (split; [rewrite ?zlen_upd; exact HL|rewrite ?P; exact HP]).
+    destruct ((e + k <? 0) || (size dims <=? e + k)); cbn [fst]; (split; [rewrite ?zlen_upd; exact HL|rewrite ?P; exact HP]).
   - destruct (ptr s) as [e|] eqn:P; cbn [fst]; [|split; [exact HL|rewrite P; exact I]].
     destruct (index_to_int k) as [k'|]; [|cbn [fst]; split; [exact HL|rewrite P; exact HP]].
-    destruct ((e + k' <? 0) || (av_size dims <=? e + k')); cbn [fst cells ptr];
+    destruct ((e + k' <? 0) || (size dims <=? e + k')); cbn [fst cells ptr];
       (split; [rewrite ?zlen_upd; exact HL|rewrite ?P; exact HP]).
   - destruct (ptr s) as [e|] eqn:P; cbn [fst]; [|split; [exact HL|rewrite P; exact I]].
     destruct (size dims <=? e); cbn [fst]; (split; [rewrite ?zlen_upd; exact HL|rewrite ?P; exact HP]).
@@ -179,15 +179,8 @@ Definition same (r : res) (r' : option res) : Prop :=
   | _, _ => False
   end.
 
-(* the only restriction left: p[k] is modelled (and works) on rank-1 arrays only (pointer_index_into_multidim_rejected_refuted) *)
-Definition op_ok (dims : list Z) (o : op) : Prop :=
-  match o with
-  | OPtrRead _ | OPtrWrite _ _ => rank1 dims = true
-  | _ => True
-  end.
-
-Definition env_ok (ak : akind) (dims : list Z) (base : Z) : Prop :=
-  supported ak dims /\ positive_dims dims /\ size dims < two31 /\ base_ok base (size dims).
+Definition env_ok (dims : list Z) (base : Z) : Prop :=
+  positive_dims dims /\ size dims < two31 /\ base_ok base (size dims).
 
 Lemma tuple_eqb_refl t : tuple_eqb t t = true.
 Proof. unfold tuple_eqb. destruct (list_eq_dec Z.eq_dec t t); congruence. Qed.
@@ -218,11 +211,11 @@ Proof. unfold in_pos. rewrite andb_true_iff, Z.leb_le, Z.ltb_lt. tauto. Qed.
 
 (* one step of the machine is one step of the shadow array *)
 Lemma step_simulates ak dims base s ss o :
-  env_ok ak dims base -> wf dims s -> R dims s ss -> op_ok dims o ->
+  env_ok dims base -> wf dims s -> R dims s ss ->
   same (snd (step ak dims base s o)) (snd (sstep dims ss o)) /\
   R dims (fst (step ak dims base s o)) (fst (sstep dims ss o)).
 Proof.
-  intros (Hsup & Hpos & Hn & Hbase) Hwf HR Hok.
+  intros (Hpos & Hn & Hbase) Hwf HR.
   pose proof Hwf as [HL HP]. pose proof HR as [HC HPE].
   pose proof (dims_fit_of_size dims Hpos Hn) as Hfit.
   assert (CELL : forall e, 0 <= e < size dims -> getc e (cells s) = sh ss (unflat dims e)).
@@ -231,16 +224,16 @@ Proof.
             R dims (mkst (upd e v (cells s)) (ptr s)) (mksst (sset (sh ss) (unflat dims e) v) (sptr ss))).
   { intros e v He. destruct (unflat_spec dims Hpos e He) as [Hin E].
     pose proof (R_write dims s ss _ v Hwf HR Hin) as H. rewrite E in H. exact H. }
-  destruct o; cbn [step sstep op_ok] in *.
+  destruct o; cbn [step sstep] in *.
   - (* read *)
-    rewrite HL. destruct (resolve_accepts_iff_l ak Rd dims idxs Hsup Hfit) as [A B].
+    rewrite HL. destruct (resolve_accepts_iff_l ak Rd dims idxs Hfit) as [A B].
     destruct (resolve ak Rd dims (size dims) idxs) as [f|e] eqn:E.
     + assert (Hin : in_range dims idxs) by (apply A; eauto). rewrite (in_rangeb_true _ _ Hin).
       cbn [fst snd same]. rewrite (B f eq_refl). split; [apply HC; exact Hin|exact HR].
     + assert (Hnot : ~ in_range dims idxs) by (intros H; apply A in H; destruct H; congruence).
       rewrite (in_rangeb_false _ _ Hnot). cbn [fst snd same]. auto.
   - (* write *)
-    rewrite HL. destruct (resolve_accepts_iff_l ak Wr dims idxs Hsup Hfit) as [A B].
+    rewrite HL. destruct (resolve_accepts_iff_l ak Wr dims idxs Hfit) as [A B].
     destruct (resolve ak Wr dims (size dims) idxs) as [f|e] eqn:E.
     + assert (Hin : in_range dims idxs) by (apply A; eauto). rewrite (in_rangeb_true _ _ Hin).
       cbn [fst snd same]. rewrite (B f eq_refl). split; [exact I|]. apply R_write; auto.
@@ -298,20 +291,18 @@ Proof.
         cbn [andb fst snd same]; auto.
       split; [exact I|]. split; [exact HC|reflexivity].
   - (* p[k] *)
-    rewrite <- HPE. destruct (ptr s) as [e|]; [|cbn [fst snd same]; auto].
-    destruct dims as [|d [|d2 ds]]; try discriminate Hok. cbn [av_size]. rewrite size_1 in *. unfold in_pos.
-    destruct (Z.ltb_spec (e + k) 0), (Z.leb_spec d (e + k)), (Z.leb_spec 0 (e + k)), (Z.ltb_spec (e + k) d); try lia;
+    rewrite <- HPE. destruct (ptr s) as [e|]; [|cbn [fst snd same]; auto]. unfold in_pos.
+    destruct (Z.ltb_spec (e + k) 0), (Z.leb_spec (size dims) (e + k)), (Z.leb_spec 0 (e + k)), (Z.ltb_spec (e + k) (size dims)); try lia;
       cbn [orb andb fst snd same]; auto.
   - (* p[k] = v *)
-    rewrite <- HPE. destruct (ptr s) as [e|] eqn:P; [|cbn [fst snd same]; auto].
-    destruct dims as [|d [|d2 ds]]; try discriminate Hok. cbn [av_size]. rewrite size_1 in *. unfold in_pos.
+    rewrite <- HPE. destruct (ptr s) as [e|] eqn:P; [|cbn [fst snd same]; auto]. unfold in_pos.
     destruct (index_to_int k) as [k'|] eqn:K.
     + apply index_to_int_spec in K. destruct K as [_ ->].
-      destruct (Z.ltb_spec (e + k) 0), (Z.leb_spec d (e + k)), (Z.leb_spec 0 (e + k)), (Z.ltb_spec (e + k) d); try lia;
+      destruct (Z.ltb_spec (e + k) 0), (Z.leb_spec (size dims) (e + k)), (Z.leb_spec 0 (e + k)), (Z.ltb_spec (e + k) (size dims)); try lia;
         cbn [orb andb fst snd same]; auto.
-      split; [exact I|]. assert (W0 : 0 <= e + k < d) by lia. pose proof (WCELL (e + k) v W0) as W. rewrite <- HPE in W. exact W.
+      split; [exact I|]. assert (W0 : 0 <= e + k < size dims) by lia. pose proof (WCELL (e + k) v W0) as W. rewrite <- HPE in W. exact W.
     + apply index_to_int_none in K. unfold int_range, two31 in *.
-      destruct (Z.leb_spec 0 (e + k)), (Z.ltb_spec (e + k) d); cbn [andb fst snd same]; auto. lia.
+      destruct (Z.leb_spec 0 (e + k)), (Z.ltb_spec (e + k) (size dims)); cbn [andb fst snd same]; auto. lia.
   - (* *p *)
     rewrite <- HPE. destruct (ptr s) as [e|]; [|cbn [fst snd same]; auto].
     destruct (Z.leb_spec (size dims) e); [lia|]. cbn [fst snd same]. split; [apply CELL; lia|exact HR].
@@ -326,14 +317,14 @@ Proof.
     destruct (Z.leb_spec (size dims) (e + k)); [lia|]. cbn [fst snd same]. split; [apply CELL; lia|exact HR].
 Qed.
 
-Lemma run_checked_refines_l ak dims base ops : env_ok ak dims base -> Forall (op_ok dims) ops ->
+Lemma run_checked_refines_l ak dims base ops : env_ok dims base ->
   forall s ss, wf dims s -> R dims s ss ->
   Forall2 same (fst (run_checked ak dims base ops s)) (fst (srun_checked dims ops ss)) /\
   R dims (snd (run_checked ak dims base ops s)) (snd (srun_checked dims ops ss)).
 Proof.
-  intros Henv Hops. induction Hops as [|o os Ho _ IH]; intros s ss Hwf HR; cbn [run_checked srun_checked fst snd].
+  intros Henv. induction ops as [|o os IH]; intros s ss Hwf HR; cbn [run_checked srun_checked fst snd].
   - split; [constructor|exact HR].
-  - destruct (step_simulates ak dims base s ss o Henv Hwf HR Ho) as [S1 S2].
+  - destruct (step_simulates ak dims base s ss o Henv Hwf HR) as [S1 S2].
     pose proof (step_wf ak dims base s o Hwf) as W.
     destruct (step ak dims base s o) as [s' r]. destruct (sstep dims ss o) as [ss' r'].
     cbn [fst snd] in *. destruct (IH s' ss' W S2) as [I1 I2].
@@ -341,14 +332,14 @@ Proof.
     cbn [fst snd] in *. split; [constructor; assumption|exact I2].
 Qed.
 
-Lemma run_plain_refines_l ak dims base ops : env_ok ak dims base -> Forall (op_ok dims) ops ->
+Lemma run_plain_refines_l ak dims base ops : env_ok dims base ->
   forall s ss, wf dims s -> R dims s ss ->
   Forall2 same (fst (run_plain ak dims base ops s)) (fst (srun_plain dims ops ss)) /\
   R dims (snd (run_plain ak dims base ops s)) (snd (srun_plain dims ops ss)).
 Proof.
-  intros Henv Hops. induction Hops as [|o os Ho _ IH]; intros s ss Hwf HR; cbn [run_plain srun_plain fst snd].
+  intros Henv. induction ops as [|o os IH]; intros s ss Hwf HR; cbn [run_plain srun_plain fst snd].
   - split; [constructor|exact HR].
-  - destruct (step_simulates ak dims base s ss o Henv Hwf HR Ho) as [S1 S2].
+  - destruct (step_simulates ak dims base s ss o Henv Hwf HR) as [S1 S2].
     pose proof (step_wf ak dims base s o Hwf) as W.
     destruct (step ak dims base s o) as [s' r]. destruct (sstep dims ss o) as [ss' r'].
     cbn [fst snd] in *. destruct (IH s' ss' W S2) as [I1 I2].
@@ -359,14 +350,14 @@ Proof.
 Qed.
 
 (* an accepted write changes the cell of exactly one in-range tuple *)
-Lemma write_one_cell_l ak dims base s idxs v s' : supported ak dims -> dims_fit dims -> wf dims s ->
+Lemma write_one_cell_l ak dims base s idxs v s' : dims_fit dims -> wf dims s ->
   step ak dims base s (OWrite idxs v) = (s', RUnit) ->
   in_range dims idxs /\ ptr s' = ptr s /\
   forall t, in_range dims t ->
     getc (row_major dims t) (cells s') = if tuple_eqb t idxs then v else getc (row_major dims t) (cells s).
 Proof.
-  intros Hsup Hi Hwf. pose proof Hwf as [HL _]. cbn [step]. rewrite HL.
-  destruct (resolve_accepts_iff_l ak Wr dims idxs Hsup Hi) as [A B].
+  intros Hi Hwf. pose proof Hwf as [HL _]. cbn [step]. rewrite HL.
+  destruct (resolve_accepts_iff_l ak Wr dims idxs Hi) as [A B].
   destruct (resolve ak Wr dims (size dims) idxs) as [f|e] eqn:E; [|discriminate].
   intros H. injection H as <-. assert (Hin : in_range dims idxs) by (apply A; eauto).
   rewrite (B f eq_refl). split; [exact Hin|]. split; [reflexivity|].
@@ -383,19 +374,12 @@ Proof.
     (split; [intros [x Hx]; congruence|intros Hx; try discriminate; eauto]).
 Qed.
 
-Lemma checked_err_iff_rejected_l ak dims base ops s ss : env_ok ak dims base -> Forall (op_ok dims) ops ->
+Lemma checked_err_iff_rejected_l ak dims base ops s ss : env_ok dims base ->
   wf dims s -> R dims s ss ->
   Forall2 (fun r r' => (exists e, r = RErr e) <-> r' = None)
           (fst (run_checked ak dims base ops s)) (fst (srun_checked dims ops ss)).
 Proof.
-  intros He Ho Hw Hr. destruct (run_checked_refines_l ak dims base ops He Ho s ss Hw Hr) as [H _].
+  intros He Hw Hr. destruct (run_checked_refines_l ak dims base ops He s ss Hw Hr) as [H _].
   induction H; constructor; auto. apply same_err_iff. assumption.
 Qed.
 
-(* p[k] on a pointer into an N-D array tests against the empty 1-D vector: always rejected *)
-Lemma ptr_index_nd_rejected_l ak d1 d2 ds base s e k : ptr s = Some e ->
-  snd (step ak (d1 :: d2 :: ds) base s (OPtrRead k)) = RErr EBounds.
-Proof.
-  intros P. cbn [step av_size]. rewrite P.
-  destruct (Z.ltb_spec (e + k) 0), (Z.leb_spec 0 (e + k)); cbn [orb snd]; try reflexivity; lia.
-Qed.
